@@ -554,6 +554,23 @@ def run_c18(desc, stats):
                         "msg": f"configuration after set_config_parameters(d) differs from {cfg_cls.__name__}(**d)"})
         else:
             stats["by_products"]["config_equal"] += 1
+        # the caller may re-submit the very same dict object after changing it in place
+        first = _plain_params(desc.get("prior_config") or {**d, "max_cycles": d["max_cycles"] + 1})
+        try:
+            cfg_cls(**copy.deepcopy(first))
+            dd = copy.deepcopy(first)
+            o3 = cls()
+            o3.set_config_parameters(dd)
+            dd.clear()
+            dd.update(copy.deepcopy(d))
+            o3.set_config_parameters(dd)
+            stats["by_products"]["resubmitted_same_dict"] = 1
+            if o3.configuration != want:
+                out.append({"cls": [opt, "config_mismatch"],
+                            "msg": f"set_config_parameters(d) with a dict object that was submitted before and then changed "
+                                   f"in place leaves a configuration different from {cfg_cls.__name__}(**d)"})
+        except Exception:
+            pass
         for cand in desc.get("candidates") or []:
             q = _plain_params(cand["params"])
             stats["by_products"]["candidates"] += 1
